@@ -384,10 +384,12 @@ func Generate(seed uint64, opt GenOptions) *Scenario {
 		poolChoice = append(poolChoice, i)
 	}
 	var homeGroups []string
+	generated := map[int]bool{}
 	for len(sc.Paths) < nPaths {
 		fromGen := generatedShare == "all" || (generatedShare == "some" && g.chance(0.4))
 		if fromGen {
 			if s := g.randomPath(wildOK); s != "" {
+				generated[len(sc.Paths)] = true
 				sc.Paths = append(sc.Paths, s)
 				continue
 			}
@@ -454,6 +456,22 @@ func Generate(seed uint64, opt GenOptions) *Scenario {
 			}
 			sc.Vars = append(sc.Vars, d)
 		}
+	}
+
+	// Generated paths can be quadratic or cubic in the document: they only
+	// ever meet small documents (the large ones are for their own pool paths).
+	bigDoc := map[int]bool{}
+	small := -1
+	for di, d := range sc.Docs {
+		if len(d.JSON) > 400 {
+			bigDoc[di] = true
+		} else if small < 0 {
+			small = di
+		}
+	}
+	if small < 0 {
+		sc.Docs = append(sc.Docs, DocSpec{JSON: `[1,2,3]`})
+		small = len(sc.Docs) - 1
 	}
 
 	// Tasks and operations.
@@ -559,6 +577,9 @@ func Generate(seed uint64, opt GenOptions) *Scenario {
 					}
 					op.Fault = f
 				}
+			}
+			if generated[op.Path] && bigDoc[op.Doc] {
+				op.Doc = small
 			}
 			ts.Ops = append(ts.Ops, op)
 		}
